@@ -172,8 +172,8 @@ def run(chk):
     quick = chk.tier == 'quick'
     P = (chk.prop, chk.tier)
     cases = []
-    NMAX = 4 if quick else 7
-    ML = 3 if quick else 4
+    NMAX = 4 if quick else 9
+    ML = 3 if quick else 5
     for N in range(0, NMAX + 1):
         for slen in range(0, ML + 1):
             cases.append(P + (N, ML, slen, 24 if N % 2 else 16, False))
